@@ -48,6 +48,16 @@ func (ds *dataStore) getStoreKey(keyName string) (sk *storeKey, exists bool) {
 	return
 }
 
+// like getStoreKey, but a key whose deadline has passed counts as missing
+func (ds *dataStore) getLiveStoreKey(keyName string) (sk *storeKey, exists bool) {
+	sk, exists = ds.getStoreKey(keyName)
+	if exists && sk.isExpiredUnlocked() {
+		sk = nil
+		exists = false
+	}
+	return
+}
+
 func (ds *dataStore) hasChangedUnlocked(keyName string, id uint64) bool {
 	sk, exists := ds.getStoreKey(keyName)
 	if exists && sk.isExpiredUnlocked() {
@@ -73,13 +83,13 @@ func (ds *dataStore) newStoreKeyUnlocked(keyName string) *storeKey {
 
 // makes a full copy of a store key, optionally into a different data store
 func (ds *dataStore) copyStoreKeyUnlocked(srcKeyName, destKeyName string, dds *dataStore, overwrite bool) (newSk *storeKey, destExists bool) {
-	sk, exists := ds.getStoreKey(srcKeyName)
+	sk, exists := ds.getLiveStoreKey(srcKeyName)
 	if !exists {
 		return
 	}
 
 	if !overwrite {
-		_, destExists = dds.getStoreKey(destKeyName)
+		_, destExists = dds.getLiveStoreKey(destKeyName)
 		if destExists {
 			return
 		}
@@ -93,13 +103,13 @@ func (ds *dataStore) copyStoreKeyUnlocked(srcKeyName, destKeyName string, dds *d
 
 // moves a store key, optionally into a different data store
 func (ds *dataStore) moveStoreKeyUnlocked(srcKeyName, destKeyName string, dds *dataStore, overwrite bool) (newSk *storeKey, destExists bool) {
-	sk, exists := ds.getStoreKey(srcKeyName)
+	sk, exists := ds.getLiveStoreKey(srcKeyName)
 	if !exists {
 		return
 	}
 
 	if !overwrite {
-		_, destExists = dds.getStoreKey(destKeyName)
+		_, destExists = dds.getLiveStoreKey(destKeyName)
 		if destExists {
 			return
 		}
